@@ -99,6 +99,11 @@ if merge:
     rows = []
     for fn in sorted(glob.glob("/tmp/matrix_rows_*.json")):
         rows += [tuple(r) for r in _json.load(open(fn))]
+    # a (change, check) pair that was run again later (MX_TAG=z.. re-runs of single rows sort last) replaces the earlier row
+    last = {}
+    for r in rows:
+        last[(r[0], r[1])] = r
+    rows = list(last.values())
     order = {j[0]: i for i, j in enumerate(jobs)}
     rows = [r for r in rows if r[0] in order]  # (changes that were retired since the shards ran are left out)
     rows.sort(key=lambda r: (order.get(r[0], 10**6), r[1]))
@@ -115,21 +120,22 @@ if merge:
 WT = None
 if shard:
     si, sn = map(int, shard.split("/"))
-    WT = f"/tmp/mx_wt_{si}"
+    TAG = os.environ.get("MX_TAG") or str(si)
+    WT = f"/tmp/mx_wt_{TAG}"
     subprocess.run(["git", "-C", "/repo", "worktree", "remove", "--force", WT], capture_output=True)
     subprocess.run(["git", "-C", "/repo", "worktree", "add", "--detach", WT, "HEAD", "-q"], check=True)
     flat = [(sid, patch, pid, what) for sid, patch, pids, what in jobs for pid in pids]
     # (the slow checks first within a shard does not matter; the jobs are dealt round robin)
     jobs = [(sid, patch, [pid], what) for k, (sid, patch, pid, what) in enumerate(flat) if k % sn == si]
 for sid, patch, pids, what in jobs:
-    if only and only not in sid:
+    if only and not re.search(only, sid):
         continue
     for pid in pids:
         v, how, n = run(patch, pid)
         rows.append((sid, pid, v, how, n, what))
         print(sid, pid, v, how, n, flush=True)
         if shard:
-            json.dump(rows, open(f"/tmp/matrix_rows_{shard.split('/')[0]}.json", "w"))
+            json.dump(rows, open(f"/tmp/matrix_rows_{os.environ.get('MX_TAG') or shard.split('/')[0]}.json", "w"))
             continue
         if sid.startswith("C") and pid == pids[0]:
             mp = os.path.join(os.path.dirname(patch), "meta.json")
